@@ -474,6 +474,42 @@ func init() {
 				}
 			}
 		}
+		// (c3) a Template built as a literal is parsed by its first Exec: all goroutines make that first
+		// call (and Clone it) at the same moment
+		for round := 0; round < 6; round++ {
+			for _, G := range []int{4, 16} {
+				src := fmt.Sprintf("<%%= for (x) in [1, 2, 3] { %%><%%= x + %d %%>,<%% } %%>", round)
+				want := fmt.Sprintf("%d,%d,%d,", 1+round, 2+round, 3+round)
+				t := &plush.Template{Input: src}
+				outs := make([]string, G)
+				errs := make([]error, G)
+				start := make(chan struct{})
+				var wg sync.WaitGroup
+				for g := 0; g < G; g++ {
+					wg.Add(1)
+					go func(g int) {
+						defer wg.Done()
+						<-start
+						if g%4 == 3 {
+							outs[g], errs[g] = t.Clone().Exec(plush.NewContext())
+							return
+						}
+						outs[g], errs[g] = t.Exec(plush.NewContext())
+					}(g)
+				}
+				close(start)
+				c14wait(e, &wg)
+				e.rep.Evaluations += G
+				e.Count("lazy-parse")
+				e.Distinct(fmt.Sprintf("lazy/%d/%d", round, G))
+				for g := 0; g < G; g++ {
+					if errs[g] != nil || outs[g] != want {
+						e.Violate("c14-output-differs", fmt.Sprintf("template literal executed for the first time by %d goroutines at once: goroutine %d got %q, %v; alone %q", G, g, outs[g], errs[g], want), map[string]interface{}{"goroutines": G, "tmpl": src})
+						break
+					}
+				}
+			}
+		}
 		plush.CacheEnabled = false
 	})
 }
